@@ -114,6 +114,17 @@ class Body:
         if k == "goto":
             return [(t["t"], "goto")]
         if k == "switch":
+            op = t["op"]
+            if op["k"] in ("copy", "move") and not op["pl"]["p"]:
+                ds = self.defs.get(op["pl"]["l"], [])
+                if len(ds) == 1 and not ds[0][2] and ds[0][3]["k"] == "use" and ds[0][3]["op"]["k"] == "const" and ds[0][3]["op"].get("v") is not None:
+                    op = ds[0][3]["op"]      # a local holding a compile-time constant (cfg!(..))
+            if op["k"] == "const" and op.get("v") is not None:
+                # switch on a compile-time constant (cfg!(..), macro-expanded `if true`): only the matching edge is feasible
+                for v, tb in t["targets"]:
+                    if v == op["v"]:
+                        return [(tb, ("sw", v))]
+                return [(t["otherwise"], ("sw", "otherwise"))]
             out = [(tb, ("sw", v)) for v, tb in t["targets"]]
             out.append((t["otherwise"], ("sw", "otherwise")))
             return out
